@@ -3,7 +3,7 @@
   Request:
     fp <f|b> <force 0|1> <max|-> <join> <cmp> <k> <fn> (def e…) (at <oloc> e…)*
       f|b      forward / backward solver
-      max      `max_analysis_steps` (forward only)
+      max      `max_analysis_steps` (forward only; the backward solver uses DEFAULT_MAX_ANALYSIS_STEPS)
       join     u (union) | i (intersection) | x (xor) | m (max) | e (returns Err) | c<N> (constant N)
       cmp      s (subset order on bit masks) | n (numeric order) | z (never comparable) | g (always Greater)
       k        states are the numbers below 2^k
@@ -11,7 +11,6 @@
                an entry is a number or `err` (trans returns Err).  `def` is the table of every location that
                has no `at`; <oloc> is (i b k) | (e h t) | (b k).
   Answer: `ok <loc>=<state> …` (sorted) | err:maxsteps | err:ordering:<less|norel>@<loc> | err:noroot | err:other | panic
-          (model `fuel`: the backward model ran out of its own fuel — never an answer of falcon)
   Spec column:
     `ok …`    lawful monotone analysis (tables monotone incl. the None entry, join = lub of the cmp order):
               the least solution computed by Kleene iteration over the reachable locations — must be the answer
@@ -215,10 +214,8 @@ def handle (line : String) : String :=
         | none => "-"
       m ++ "\t" ++ (if wffB f then s else "?")
     else
-      let model := fixedPointBackward f A r.force 1000000
-      let m := match model with
-        | .maxSteps => "fuel"
-        | o => outStr flocKey flocStr (fun l => olocStr l.toOwned) o
+      let model := fixedPointBackward f A r.force
+      let m := outStr flocKey flocStr (fun l => olocStr l.toOwned) model
       let s := match f.cfg.exit.bind f.cfg.block with
         | some b => specFor r (bwdParams f A) b.lastLoc flocKey flocStr model true cfuel
         | none => "-"
